@@ -19,7 +19,7 @@ LEVEL_TEXT = (
     'overwrites a non-empty local queue and hands processed work back; its join no longer waits for '
     'the control-flow forwarder. The HTTP/JS layer end to end and ui/app.js are not analysed.')
 
-FLOORS = {'C19-R1': 7, 'C19-R2': 4, 'C19-R3': 6, 'C19-R4': 3, 'C19-R5': 4}
+FLOORS = {'C19-R1': 7, 'C19-R2': 4, 'C19-R3': 6, 'C19-R4': 3, 'C19-R5': 4, 'C19-R6': 3}
 
 STATES = 'checker::explorer::states'
 STATUS = 'checker::explorer::status'
@@ -337,6 +337,58 @@ def r5_worker_queue(ctx, F, rule='C19-R5', with_join=True):
                       'join() never returns')
 
 
+def r6_next_steps(ctx, F, rule='C19-R6'):
+    """Model::next_steps (the step relation behind every rebuilt path): each yielded (action, state)
+    pair consists of an action and of next_state(last_state, that same action)."""
+    from taint import origins
+    b0 = F.body('Model::next_steps')
+    ctx.touched(b0)
+    b = F.norm(b0)
+    ns = b.calls_to('Model::next_state')
+    if not ns:
+        others = b.calls_to('Model::next_states')
+        for inst in ('successor-of-the-listed-action', 'pair-is-action-with-its-own-successor',
+                     'no-filtered-successor-list'):
+            ctx.bad(rule, inst, b0,
+                    'Model::next_steps never calls next_state for the action it lists%s: labels and successors '
+                    'of rebuilt paths are misaligned as soon as the model ignores an action' %
+                    (' (it takes the states from next_states(), which has no entry for ignored actions)'
+                     if others else ''))
+        return
+    if len(ns) != 1:
+        raise AnchorMissing('Model::next_steps: expected one Model::next_state call, found %d' % len(ns))
+    ns = ns[0]
+    heads = [c for c in b.calls_to('Iterator::next') if b.in_cycle(c.bb) and b.dominates(c.bb, ns.bb)]
+    if not heads:
+        raise AnchorMissing('Model::next_steps: loop over the actions')
+    head = max(heads, key=lambda c: len([1 for x in heads if b.dominates(x.bb, c.bb)]))
+
+    def from_head(op):
+        org = origins(b, op)
+        return bool(org) and all(isinstance(o, tuple) and o[0] == 'proj' and o[1] is head for o in org)
+    ok_act = from_head(ns.args[2]) and noref(b.val(ns.args[1])) == V('arg', 2)
+    ctx.check(ok_act, rule, 'successor-of-the-listed-action', b0,
+              good='next_state is asked about last_state and the action of the current iteration',
+              bad='Model::next_steps does not compute next_state(last_state, action) for the action it is listing')
+    pairs = [(i, st) for (i, si, st) in b.assigns(lambda st: st['rv']['k'] == 'agg' and st['rv'].get('agg') == 'tuple'
+                                                  and len(st['rv']['ops']) == 2) if b.dominates(ns.bb, i)]
+    ok = bool(pairs)
+    for (i, st) in pairs:
+        a_op, s_op = st['rv']['ops']
+        so = origins(b, s_op)
+        if not from_head(a_op) or not so or not all(isinstance(o, tuple) and o[0] == 'proj' and o[1] is ns for o in so):
+            ok = False
+    ctx.check(ok, rule, 'pair-is-action-with-its-own-successor', b0,
+              good='every yielded pair is (action of this iteration, next_state of that action)',
+              bad='Model::next_steps pairs an action with a state that is not next_state(last_state, that action): '
+                  'rebuilt paths carry wrong action labels / follow wrong successors once an action is ignored')
+    others = b.calls_to('Model::next_states')
+    ctx.check(not others, rule, 'no-filtered-successor-list', b0,
+              good='the successor list is not taken from next_states() (which drops ignored actions)',
+              bad='Model::next_steps zips the action list with next_states(), which has no entry for ignored '
+                  'actions: labels and successors are misaligned after the first ignored action')
+
+
 def run(ctx):
     F = ctx.facts
     ctx.doc('C19-R1', 'states(): same last state for actions/format_step/next_state; exactly one StateView per '
@@ -357,3 +409,6 @@ def run(ctx):
     with ctx.rule('C19-R4', 'OD'):
         r4_od_sibling(ctx, F)
     r5_worker_queue(ctx, F)
+    ctx.doc('C19-R6', 'Model::next_steps pairs every action with next_state(last_state, that action)')
+    with ctx.rule('C19-R6', 'next_steps'):
+        r6_next_steps(ctx, F)
